@@ -308,6 +308,63 @@ def rule_window(facts):
                 if not short(b.name).endswith("LzCircularBuffer::set"):
                     r.bad("window|buf-writer:%s" % short(b.name).split("::")[-1], "the window buffer is modified in %s (%s), "
                           "not through set()" % (short(b.name), nm.split("::")[-1]), pat.where(b, blk.idx))
+    # the wrap flush writes the whole buffer and the read side indexes it modulo dict_size: the buffer must hold exactly the
+    # positions written so far, i.e. `set(index, ..)` grows it to index + 1 and nothing else (index < dict_size)
+    st = next((x for x in facts.bodies if x.promoted is None and short(x.name).endswith("LzCircularBuffer::set")), None)
+    if st is not None:
+        tms = Terms(st)
+        grows = [blk for blk in st.calls() if (flow.callee(blk.term) or "").endswith(("Vec::resize", "Vec::reserve", "Vec::resize_with",
+                                                                                        "Vec::extend_from_slice", "Vec::push"))
+                 and pat.has_field(tms.of_operand(blk.term.args[0]), "buf")]
+        r.sites += 1
+        for blk in grows:
+            nm = (flow.callee(blk.term) or "").split("::")[-1]
+            if nm != "resize":
+                r.bad("set|growth:%s" % nm, "the window buffer grows through %s: cannot verify that it holds exactly the positions written" % nm,
+                      pat.where(st, blk.idx), "unverifiable")
+                continue
+            t = tms.of_operand(blk.term.args[1])
+            bad = None
+            try:
+                DS = 6144       # a dictionary size that is not a power of two
+                for idx_ in (0, 1, 5, 4095, 4096, 6143):
+                    for ln in (0, 1, 4, idx_, 4096):
+                        for ml in (1 << 20, (1 << 64) - 1):
+                            def leaf(q, idx_=idx_, ln=ln, ml=ml):
+                                if q[0] == "arg" and q[2] == "index":
+                                    return idx_
+                                if q[0] == "field" and q[1] == "dict_size":
+                                    return DS
+                                if q[0] == "call" and q[1].endswith("::len"):
+                                    return ln
+                                if q[0] == "field" and q[1] == "memlimit":
+                                    return ml
+                                if q[0] == "call" and q[1].endswith(("::max", "::min")) and len(q[2]) == 2:
+                                    a_, b_ = pat.eval_term(q[2][0], leaf), pat.eval_term(q[2][1], leaf)
+                                    return max(a_, b_) if q[1].endswith("max") else min(a_, b_)
+                                if q[0] == "call" and q[1].endswith("saturating_mul") and len(q[2]) == 2:
+                                    return min(pat.eval_term(q[2][0], leaf) * pat.eval_term(q[2][1], leaf), (1 << 64) - 1)
+                                raise pat.NotEvaluable(q)
+                            if ln > idx_:
+                                continue        # set() grows only when buf.len() < index + 1
+                            got = pat.eval_term(t, leaf)
+                            if not (idx_ + 1 <= got <= DS):
+                                bad = "with dict_size %d, writing position %d with %d bytes buffered grows the buffer to %d bytes" % (DS, idx_, ln, got)
+                                break
+                        if bad:
+                            break
+                    if bad:
+                        break
+            except pat.Overflow:
+                bad = "the new buffer length overflows"
+            except pat.NotEvaluable as ex:
+                r.bad("set|growth-term", "cannot evaluate the new buffer length %s" % flow.show(t)[:80], pat.where(st, blk.idx), "unverifiable")
+                continue
+            if bad:
+                r.bad("set|growth", "%s (allowed: position + 1 .. dict_size): the wrap-around flush writes the whole buffer and relies on it "
+                      "holding exactly dict_size bytes at that moment" % bad, pat.where(st, blk.idx))
+            else:
+                r.ok("evaluation", {"set": "buf grows to a length in [index + 1, dict_size]"})
     al = next((x for x in facts.bodies if x.promoted is None and x.trait == "decode::lzbuffer::LzBuffer" and
                x.item == "append_literal" and "Circular" in x.name), None)
     r.need("circular append_literal", al is not None)
